@@ -508,7 +508,7 @@ for the same identifier pairs; every connection is a real loopback TCP connectio
 After every input (once the daemon has read it): the FSM state of both connection slots == reference model; a connection the model keeps is still open and was sent no NOTIFICATION; a connection the model tears down was closed by the daemon after the NOTIFICATION the statement names \
 (Cease/collision to the loser, FSM error with the RFC 6608 sub-code of the state, Bad Peer AS); a new connection gets an OPEN with the configured AS and identifier, an accepted OPEN a KEEPALIVE; a second connection in a role already taken is closed without disturbing the first. non-trivial := as above";
 
-const DRIVER_SYMS: [Sym; 9] = [Sym::Connected, Sym::OpenOk, Sym::OpenBadAs, Sym::Keepalive, Sym::Update, Sym::Notification, Sym::Disconnected, Sym::OpenBadHold, Sym::BadType];
+const DRIVER_SYMS: [Sym; 10] = [Sym::Connected, Sym::OpenOk, Sym::OpenBadAs, Sym::Keepalive, Sym::Update, Sym::Notification, Sym::Disconnected, Sym::OpenBadHold, Sym::BadType, Sym::RouteRefresh];
 
 const MARKER: [u8; 16] = [0xff; 16];
 
@@ -695,6 +695,7 @@ async fn drive(c: &Case) -> CheckResult {
                     Sym::BadType => [&MARKER[..], &[0, 19, 0x63]].concat(),
                     Sym::Keepalive => [&MARKER[..], &[0, 19, 4]].concat(),
                     Sym::Update => [&MARKER[..], &[0, 23, 2, 0, 0, 0, 0]].concat(),
+                    Sym::RouteRefresh => [&MARKER[..], &[0, 23, 5, 0, 1, 0, 1]].concat(),
                     _ => [&MARKER[..], &[0, 21, 3, 6, 4]].concat(),
                 };
                 if let Some(t) = taps[r].as_mut()
@@ -822,6 +823,7 @@ fn arb_driver_sym() -> impl Strategy<Value = Sym> {
         1 => Just(Sym::Disconnected),
         1 => Just(Sym::OpenBadHold),
         1 => Just(Sym::BadType),
+        2 => Just(Sym::RouteRefresh),
     ]
 }
 
